@@ -50,8 +50,8 @@ def drive_images(rng, n):
                     m2 = Images()
                     m2.loads(text)
                     m = m2
-            except (ValueError, TypeError):
-                pass
+            except Exception:
+                pass            # whatever the library raises is in the recorded outcome; the trace specification judges it
 
 
 def drive_forest(rng, n):
@@ -95,14 +95,14 @@ def drive_forest(rng, n):
                 cont.add(v)
                 if v not in filed:
                     filed.append(v)
-            except ValueError:
+            except Exception:
                 pass
         if rng.random() < 0.5:
             try:
                 c2 = ComposeInfo()
                 c2.loads(ci.dumps())
-            except (ValueError, TypeError):
-                pass
+            except Exception:
+                pass            # whatever the library raises is in the recorded outcome; the trace specification judges it
 
 
 def drive_rpms(rng, n):
@@ -155,8 +155,8 @@ def drive_rpms(rng, n):
                     m2 = Rpms()
                     m2.loads(m.dumps())
                     m = m2
-            except (ValueError, TypeError, KeyError):
-                pass
+            except Exception:
+                pass            # whatever the library raises is in the recorded outcome; the trace specification judges it
 
 
 DRIVERS = {"images": drive_images, "forest": drive_forest, "rpms": drive_rpms}
